@@ -11,7 +11,7 @@ import json,sys
 ID,D=sys.argv[1],sys.argv[2]
 p=[json.loads(l) for l in open('/verif/properties.jsonl') if json.loads(l)['id']==ID][0]
 ptxt=f"**{p['title']}**\n\n{p['statement']}\n\nIt must hold: {p['quantifier']['text']}\n\nCode that is meant to make it hold: "+"; ".join(f"{x.get('name')} ({x.get('where')})" for x in p['anchors']['mechanism'])+f"\n\nFiles: {', '.join(p['anchors']['files'])}"
-b=open('/verif/tools/SEED_BRIEF.md').read().replace('__WT__',D+'/wt').replace('__OUT__',D+'/out').replace('__PROPERTY__',ptxt).replace('__ID__',ID)
+b=open('/verif/tools/SEED_BRIEF.md').read().replace('__WT__',D+'/wt').replace('__OUT__',D+'/out').replace('__DIR__',D).replace('__PROPERTY__',ptxt).replace('__ID__',ID)
 open(D+'/BRIEF.md','w').write(b)
 PY
 echo "ready: $D"
